@@ -134,11 +134,13 @@ static void flushLocked() {
   while (off < outBuf.size()) { ssize_t n = ::write(outFd, outBuf.data() + off, outBuf.size() - off); if (n <= 0) break; off += n; }
   outBuf.clear();
 }
+static bool dying = false;                // set (under logMutex) once the watchdog has written the Hang line: nothing follows it
 static thread_local int tlsLane = 0;      // lane-thread index (1..), assigned at the thread's first job start; 0 = not a lane
 static int nextLaneIdx = 0;               // under logMutex
 // one event: {"e":<kind>,"s":<seq>,"t":<lane thread index>, <body>}
 static void emit(const char* kind, const std::string& body, bool assignLane = false) {
   std::lock_guard<std::mutex> g(logMutex);
+  if (dying) return;
   if (assignLane && tlsLane == 0) tlsLane = ++nextLaneIdx;
   ++seqNo;
   outBuf += std::string("{\"e\":\"") + kind + "\",\"s\":" + std::to_string(seqNo) + ",\"t\":" + std::to_string(tlsLane);
@@ -148,6 +150,7 @@ static void emit(const char* kind, const std::string& body, bool assignLane = fa
 }
 static void emitRaw(const std::string& line) {
   std::lock_guard<std::mutex> g(logMutex);
+  if (dying) return;
   ++seqNo; outBuf += line; outBuf += "\n"; flushLocked();
 }
 
@@ -393,7 +396,7 @@ static void watchdogMain() {
     std::this_thread::sleep_for(std::chrono::milliseconds(200));
     long d = deadline.load();
     if (d && nowSecs() > d) {
-      { std::lock_guard<std::mutex> g(logMutex); ++seqNo; outBuf += "{\"e\":\"Hang\",\"s\":" + std::to_string(seqNo) + "}\n"; flushLocked(); }
+      { std::lock_guard<std::mutex> g(logMutex); ++seqNo; outBuf += "{\"e\":\"Hang\",\"s\":" + std::to_string(seqNo) + "}\n"; flushLocked(); dying = true; }
       // leave no scripted children behind (they are in their own process groups); children of this process only
       if (system("pkill -KILL -P $PPID >/dev/null 2>&1") != 0) {}
       _exit(3);
